@@ -12,6 +12,7 @@ import tokenize
 
 from vcommon import Prop, REPO
 import gen_source
+import rewriters as R
 
 
 def _blank_or_comment_line(l: str) -> bool:
@@ -351,8 +352,8 @@ class C10(Prop):
 
     # -- model ---------------------------------------------------------------
     def model_requests(self, case, obs):
-        if len(case["text"]) > 20000:
-            return []
+        if len(case["text"]) > 20000 or R.layout_family(case["text"]):
+            return []        # (listed findings D59/D60: the implementation's line structure is wrong on these layouts)
         try:
             starts, tree = self._starts(case)
         except Exception:
@@ -413,7 +414,7 @@ class C10(Prop):
         acc[b] = acc.get(b, 0) + 1
 
     # known-finding families
-    families = {}
+    families = {"lone_cr": R.fam_lone_cr, "backslash_line": R.fam_backslash_line, "deep_nesting": R.fam_deep_nesting}
 
 
 PROP = C10()
